@@ -1,6 +1,7 @@
 import ScVerif.Base.Line
 import ScVerif.C01.Flat
 import ScVerif.C01.Opts
+import ScVerif.C01.Paths
 /-!
 Driver handler for C01 (stateful): one resource (Value or Collection over the `Flat` message) per
 driver process or per `newc` / `newv` line.
@@ -16,10 +17,14 @@ get id=<id> [rm=<mask>]                    -> <msg>|nil
 list [rm=<mask>] [inc=<name>]              -> [msg;msg;…]
 vset msg=<msg> <write opts>                -> val=… err=… ev=[…] | st=<msg|nil>@t clk=n
 vget [rm=<mask>]                           -> <msg>|nil
-write opts: wt=<n> um=<mask|nil> mum=<mask> rs=<mask|nil> ev=<msg|nil> xa chk=<name> am am0 bf=<name>
-            af=<name> nw mw=<mask> cia ccb gid icb      — applied IN THE ORDER GIVEN, repeats allowed
+wnp paths=<p,p,…>                          -> the paths `withoutNestedPaths` keeps, in order (`-` for none)
+sel paths=<p,p,…> leaf=<p>                 -> true|false: does nestedMask(paths) select the leaf field
+iwp path=<p> w=<p,p,…>                     -> true|false: `isWritablePath`   (p: a real path string)
+write opts: wt=<n> um=<mask|nil> mum=<mask> rs=<mask|nil> ev=<msg|nil> xa chk=<name|nil> am am0 bf=<name|nil>
+            af=<name|nil> nw mw=<mask> cia ccb ccb0 gid icb icb0   — applied IN THE ORDER GIVEN, repeats allowed
 read opts:  rm=<mask|nil> inc=<name|nil> uo uo0 bp bp0   — likewise
-mask: 0 (no paths) or paths a,s,c,f,r,x,fc,fd,fx separated by commas;   msg: <a>/<s>/<c|->[/<f: -|c:d>/<r: -|n.n.n>]
+mask: 0 (no paths) or paths a,s,c,f,r,x,fc,fd,fx,p,t,tp separated by commas;
+msg: <a>/<s>/<c|->[/<f: -|c:d>/<r: -|n.n.n>[/<p>/<t: -|n>]]
 ```
 -/
 namespace ScVerif.C01
@@ -39,7 +44,8 @@ def kvHas (kv : KV) (k : String) : Bool := (kvGet kv k).isSome
 
 def parseField? : String → Option Field
   | "a" => some .a | "s" => some .s | "c" => some .c | "f" => some .f | "r" => some .r
-  | "x" => some .x | "fc" => some .fc | "fd" => some .fd | "fx" => some .fx | _ => none
+  | "x" => some .x | "fc" => some .fc | "fd" => some .fd | "fx" => some .fx
+  | "p" => some .p | "t" => some .t | "tp" => some .tp | _ => none
 
 def parseMask? (s : String) : Option Mask :=
   if s = "0" then some [] else (s.splitOn ",").mapM parseField?
@@ -58,7 +64,7 @@ def parseForeign? (s : String) : Option (Option (Int × Int)) :=
 def parseRep? (s : String) : Option (List Int) :=
   if s = "-" then some [] else (s.splitOn ".").mapM parseInt?
 
-/-- `a/s/c` or `a/s/c/f/r` -/
+/-- `a/s/c`, `a/s/c/f/r` or `a/s/c/f/r/p/t` (t: `-` or the tween's progress) -/
 def parseMsg? (s : String) : Option Msg :=
   match s.splitOn "/" with
   | [a, str, c] => do
@@ -71,6 +77,14 @@ def parseMsg? (s : String) : Option Msg :=
     let fv ← parseForeign? f
     let rv ← parseRep? r
     pure { a := av, s := str, c := cv, f := fv, r := rv }
+  | [a, str, c, f, r, p, t] => do
+    let av ← parseInt? a
+    let cv ← if c = "-" then some none else (parseInt? c).map some
+    let fv ← parseForeign? f
+    let rv ← parseRep? r
+    let pv ← parseInt? p
+    let tv ← if t = "-" then some none else (parseInt? t).map some
+    pure { a := av, s := str, c := cv, f := fv, r := rv, p := pv, t := tv }
   | _ => none
 
 /-- optional key whose value must parse when present -/
@@ -92,15 +106,17 @@ def parseWOpt? : String × String → Option (List (WOpt Msg Mask))
   | ("rs", v) => (parseMaskOrNil? v).map fun m => [.resetMask m]
   | ("ev", v) => if v = "nil" then some [.expectedValue none] else (parseMsg? v).map fun m => [.expectedValue (some m)]
   | ("xa", _) => some [.expectAbsent]
-  | ("chk", v) => (namedCheck v).map fun f => [.expectedCheck f]
+  | ("chk", v) => if v = "nil" then some [.noExpectedCheck] else (namedCheck v).map fun f => [.expectedCheck f]
   | ("am", _) => some [.allowMissing true]
   | ("am0", _) => some [.allowMissing false]
-  | ("bf", v) => (namedBefore v).map fun f => [.before f]
-  | ("af", v) => (namedAfter v).map fun f => [.after f]
+  | ("bf", v) => if v = "nil" then some [.noBefore] else (namedBefore v).map fun f => [.before f]
+  | ("af", v) => if v = "nil" then some [.noAfter] else (namedAfter v).map fun f => [.after f]
   | ("nw", _) => some [.allFieldsWritable]
   | ("mw", v) => (parseMask? v).map fun m => [.moreWritable m]
   | ("cia", _) => some [.createIfAbsent]
   | ("ccb", _) => some [.createdCallback]
+  | ("ccb0", _) => some [.noCreatedCallback]
+  | ("icb0", _) => some [.noIDCallback]
   | ("gid", _) => some [.genIDIfAbsent]
   | ("icb", _) => some [.idCallback]
   | _ => none
@@ -150,11 +166,11 @@ def showOptInt : Option Int → String
 
 def showMsg (m : Msg) : String :=
   let base := s!"{m.a}/{m.s}/{showOptInt m.c}"
-  if m.f.isNone && m.r.isEmpty then base
-  else
-    let f := match m.f with | none => "-" | some (c, d) => s!"{c}:{d}"
-    let r := if m.r.isEmpty then "-" else ".".intercalate (m.r.map toString)
-    s!"{base}/{f}/{r}"
+  let f := match m.f with | none => "-" | some (c, d) => s!"{c}:{d}"
+  let r := if m.r.isEmpty then "-" else ".".intercalate (m.r.map toString)
+  if m.p ≠ 0 || m.t.isSome then s!"{base}/{f}/{r}/{m.p}/{showOptInt m.t}"
+  else if m.f.isNone && m.r.isEmpty then base
+  else s!"{base}/{f}/{r}"
 
 def showOptMsg : Option Msg → String
   | none => "nil"
@@ -200,12 +216,28 @@ inductive DrvState
   | coll (cfg : FCfg) (s : CState Msg (List Nat))
   | val (cfg : FCfg) (s : VState Msg)
 
+/-- a comma-separated list of real path strings (empty text: no paths) -/
+def parsePaths (s : String) : List Paths.Path :=
+  if s = "" then [] else (s.splitOn ",").map String.toList
+
 def handleOpt (st : DrvState) (toks : List String) : Option (DrvState × String) :=
   match toks with
   | [] => none
   | op :: rest => do
     let kv ← parseKV rest
     match op, st with
+    | "wnp", _ =>
+      let ps ← (kvGet kv "paths").map parsePaths
+      let kept := Paths.withoutNestedPaths ps
+      pure (st, if kept.isEmpty then "-" else ",".intercalate (kept.map String.ofList))
+    | "sel", _ =>
+      let ps ← (kvGet kv "paths").map parsePaths
+      let leaf ← kvGet kv "leaf"
+      pure (st, toString (Paths.selects ps leaf.toList))
+    | "iwp", _ =>
+      let w ← (kvGet kv "w").map parsePaths
+      let path ← kvGet kv "path"
+      pure (st, toString (Paths.isWritablePath path.toList w))
     | "newc", _ =>
       let cfg ← parseCfg? kv
       let rng ← parseRng? ((kvGet kv "rng").getD "")
